@@ -483,6 +483,10 @@ class FieldsConstructor(Constructor):
         return obj
 
 
+# compared with the keys of the data: must not be equal to any of them (None can be a key)
+NO_DISCRIMINATOR: Any = object()
+
+
 @dataclass
 class SimpleObjectMethod(DeserializationMethod):
     constructor: Constructor
@@ -493,7 +497,7 @@ class SimpleObjectMethod(DeserializationMethod):
     unexpected: str
 
     def deserialize(self, data: Any) -> Any:
-        discriminator: Optional[str] = None
+        discriminator: Any = NO_DISCRIMINATOR
         if not isinstance(data, dict):
             if isinstance(data, Discriminated):
                 discriminator = data.discriminator
@@ -581,7 +585,7 @@ class ObjectMethod(DeserializationMethod):
         )
 
     def deserialize(self, data: Any) -> Any:
-        discriminator: Optional[str] = None
+        discriminator: Any = NO_DISCRIMINATOR
         if not isinstance(data, dict):
             if isinstance(data, Discriminated):
                 discriminator = data.discriminator
